@@ -1,6 +1,7 @@
 """C12 -- driving force, phase boundary and critical radius agree (DESIGN 6, C12; partial)."""
 from kvc.dsl import *
 from kvc import sym
+from kvc.sym import CTX
 from .common import pbm_obj
 from .kwn import mk_kwn, mk_slice, Volume, PP, KE, KB, PHASES
 from .thermo_stubs import *
@@ -37,7 +38,7 @@ class ShapeStub(object):
                 return real(ctx, 'thermoFactor_of_something_that_is_not_the_aspect_ratio', lambda v: v >= 1)
 
             def normalRadii(self, ar):
-                return ('radii', ar)
+                return ('semi-axes-for-aspect-ratio', ar)
         self.description = Desc()
 
     def aspectRatio(self, R):
@@ -54,16 +55,21 @@ class ShapeStub(object):
         return real(self.ctx, 'kineticFactor_s', lambda v: v > 0)
 
     def normalRadii(self, R):
-        return ('radii', R)
+        return ('semi-axes-of-particle-of-radius', R)
 
 
 class StrainStub(object):
     """constant elastic energy density e_s (J/m3) -- the default ConstantEnergyDescription per unit volume"""
     def __init__(self, es):
         self.es = es
+        self.expect = {}
 
     def compute(self, radii):
-        return self.es
+        # per-particle strain energy is asked for the semi-axes of a particle of that RADIUS (the aspect ratio belongs to the radius), the nucleus one
+        # for the semi-axes of the nucleus' aspect ratio; anything else gets an unrelated value
+        if isinstance(radii, tuple) and radii[0] in ('semi-axes-of-particle-of-radius', 'semi-axes-for-aspect-ratio') and self.expect.get(radii[0], lambda a: True)(radii[1]):
+            return self.es
+        return real(CTX(), 'strain_energy_of_wrong_semi_axes')
 
 
 def mk_prec(ctx, it, es):
@@ -72,6 +78,8 @@ def mk_prec(ctx, it, es):
     prm = new_obj(it, PP, 'PrecipitateParameters', name=PHASES[0], phase=PHASES[0], _gamma=real(ctx, 'gamma', lambda v: v > 0),
                   volume=Volume(real(ctx, 'VmBeta', lambda v: v > 0)), shapeFactor=ShapeStub(ctx), strainEnergy=StrainStub(es), nucleation=nuc,
                   Rmin=real(ctx, 'Rmin', lambda v: v > 0), RdrivingForceLimit=0, infinitePrecipitateDiffusion=True, calculateAspectRatio=False, parentPhases=[])
+    shp = prm.fields['shapeFactor']
+    prm.fields['strainEnergy'].expect = {'semi-axes-for-aspect-ratio': lambda a: a is shp.ar0, 'semi-axes-of-particle-of-radius': lambda a: a is not shp.ar0}
     return prm
 
 
@@ -113,6 +121,13 @@ def c_curv_growth(ctx, it, cfg):
     forall(ctx, 'growth-positive-iff-driving-force-exceeds-Gibbs-Thomson-energy', 0, n, lambda i: and_(eq(gr.get(i) > 0, dG > gE.get(i)), eq(gr.get(i) < 0, dG < gE.get(i))))
     forall(ctx, 'interfacial-matrix-composition-equals-the-matrix-composition-where-growth-is-zero', 0, n,
            lambda i: implies(eq(dG, gE.get(i)), and_(eq(ca.get(i, 0), x.get(0)), eq(ca.get(i, 1), x.get(1)))))
+    cb = out.c_beta
+    clip01 = lambda q: vmax(0, vmin(1, q))
+    def cbeta_ok(i):
+        raw_a = [x.get(e) - (dG - gE.get(i)) * dc.get(e) for e in range(2)]
+        return and_(*[eq(cb.get(i, a), clip01(ceb.get(a) + gba.get(a, 0) * (raw_a[0] - cea.get(0)) + gba.get(a, 1) * (raw_a[1] - cea.get(1)))) for a in range(2)])
+    forall(ctx, 'interfacial-precipitate-composition = c_eq_beta + G_ba (c_alpha - c_eq_alpha), size by size', 0, n, cbeta_ok)
+    ctx.prove('one-row-per-size', and_(eq(cb.shape[0], n), eq(ca.shape[0], n), eq(gr.shape[0], n)))
     unchanged(ctx, 'arg:R', sR, R)
     unchanged(ctx, 'arg:gExtra', sg, gE)
     ctx.prove('canary/growth-always-zero', eq(gr.get(0), 0), expect='refuted')
@@ -266,3 +281,4 @@ def c_binary_sign(ctx, it, cfg):
 # without it the driving force does not change sign at the solvus of the queried temperature
 from . import c09 as _c09
 REG.contracts.append(_c09.c_sampling_cache.contract)
+REG.contracts.append(_c09.c_bin_batch.contract)
